@@ -31,7 +31,7 @@ type blockRec struct {
 
 type seqRec struct {
 	Blocks     []*blockRec
-	Panic      bool // a panic (or a panic that would hit a goroutine the app spawns) at block PanicAt
+	Panic      bool // a panic (or one that would hit a goroutine the app spawns) at block PanicAt
 	PanicAt    int
 	PanicPhase string // decode | execute | commit
 	PanicSite  string
@@ -48,22 +48,14 @@ type engine struct {
 	baseMemo map[string]string
 
 	dirSeq int64
-	runs   int64 // sequences executed on the real application
+	runs   int64 // sequences (chains) executed on the real application
 	blocks int64
 	txs    int64
-
-	memoMu sync.Mutex
-	memo   map[string]*memoEntry
 
 	infoMu sync.Mutex
 	infos  map[string]*txInfo
 
-	progress int64
-}
-
-type memoEntry struct {
-	once sync.Once
-	rec  *seqRec
+	positionalSkips int64
 }
 
 func (e *engine) info(raw []byte) *txInfo {
@@ -81,34 +73,15 @@ func (e *engine) info(raw []byte) *txInfo {
 	return ti
 }
 
-func seqKey(blocks [][][]byte, hdr [][][]byte) string {
-	var parts []interface{}
-	for _, b := range blocks {
-		parts = append(parts, "B", len(b))
-		for _, t := range b {
-			parts = append(parts, hex.EncodeToString(evmkit.TxHash(t)))
-		}
-	}
-	if hdr != nil {
-		for _, b := range hdr {
-			parts = append(parts, "H", len(b))
-			for _, t := range b {
-				parts = append(parts, hex.EncodeToString(evmkit.TxHash(t)))
-			}
-		}
-	}
-	return core.Hash(parts...)
-}
-
-// watch set of a sequence: the global accounts/keys plus what its own
-// transactions name (senders, created addresses, KV keys, tx hashes).
+// watch set: what is observed after a block — the global accounts/keys plus
+// what the given transactions name (senders, created addresses, KV keys, tx hashes).
 type watch struct {
 	accts []common.Address
 	keys  [][]byte
 	txh   [][]byte
 }
 
-func (e *engine) watchOf(blocks [][][]byte) *watch {
+func (e *engine) watchOf(txs [][]byte) *watch {
 	w := &watch{}
 	seenA := map[common.Address]bool{}
 	seenK := map[string]bool{}
@@ -125,29 +98,27 @@ func (e *engine) watchOf(blocks [][][]byte) *watch {
 			w.keys = append(w.keys, k)
 		}
 	}
-	for _, b := range blocks {
-		for _, raw := range b {
-			ti := e.info(raw)
-			for _, h := range ti.hashes {
-				if !seenH[string(h)] {
-					seenH[string(h)] = true
-					w.txh = append(w.txh, h)
-				}
+	for _, raw := range txs {
+		ti := e.info(raw)
+		for _, h := range ti.hashes {
+			if !seenH[string(h)] {
+				seenH[string(h)] = true
+				w.txh = append(w.txh, h)
 			}
-			if ti.signed {
-				if !seenA[ti.from] {
-					seenA[ti.from] = true
-					w.accts = append(w.accts, ti.from)
-				}
-				if ti.create && !seenA[ti.created] {
-					seenA[ti.created] = true
-					w.accts = append(w.accts, ti.created)
-				}
+		}
+		if ti.signed {
+			if !seenA[ti.from] {
+				seenA[ti.from] = true
+				w.accts = append(w.accts, ti.from)
 			}
-			if ti.kvOK && !seenK[string(ti.kvKey)] {
-				seenK[string(ti.kvKey)] = true
-				w.keys = append(w.keys, ti.kvKey)
+			if ti.create && !seenA[ti.created] {
+				seenA[ti.created] = true
+				w.accts = append(w.accts, ti.created)
 			}
+		}
+		if ti.kvOK && !seenK[string(ti.kvKey)] {
+			seenK[string(ti.kvKey)] = true
+			w.keys = append(w.keys, ti.kvKey)
 		}
 	}
 	return w
@@ -171,9 +142,11 @@ func receiptObs(c *evmkit.Chain, h []byte) (string, int) {
 	return b.String(), len(rc.Logs)
 }
 
-func obsKeyAcct(kind string, a common.Address) string { return kind + ":" + hex.EncodeToString(a.Bytes()) }
-func obsKeyKV(k []byte) string                        { return "kv:" + hex.EncodeToString(k) }
-func obsKeyRcpt(h []byte) string                      { return "rcpt:" + hex.EncodeToString(h) }
+func obsKeyAcct(kind string, a common.Address) string {
+	return kind + ":" + hex.EncodeToString(a.Bytes())
+}
+func obsKeyKV(k []byte) string   { return "kv:" + hex.EncodeToString(k) }
+func obsKeyRcpt(h []byte) string { return "rcpt:" + hex.EncodeToString(h) }
 
 func observe(c *evmkit.Chain, w *watch) (map[string]string, map[string]int) {
 	o := map[string]string{}
@@ -203,43 +176,29 @@ func observe(c *evmkit.Chain, w *watch) (map[string]string, map[string]int) {
 	return o, logs
 }
 
-// baseObs is the value of an observation key in the base state.
-func (e *engine) baseObs(key string) string {
+// baseNonce is the nonce of an account in the base state.
+func (e *engine) baseNonce(a common.Address) uint64 {
+	key := obsKeyAcct("nonce", a)
 	e.baseMu.Lock()
 	defer e.baseMu.Unlock()
 	if v, ok := e.baseMemo[key]; ok {
-		return v
-	}
-	i := strings.IndexByte(key, ':')
-	var v string
-	if i < 0 {
 		var n uint64
-		fmt.Sscanf(key, "store.slot%d", &n)
-		v = hex.EncodeToString(e.base.CallContract(alice, storeAddr, evmkit.StoreGetSlot(n)))
-	} else {
-		arg, _ := hex.DecodeString(key[i+1:])
-		switch key[:i] {
-		case "nonce":
-			v = fmt.Sprint(e.base.Nonce(common.BytesToAddress(arg)))
-		case "bal":
-			v = e.base.BalanceVia(storeAddr, common.BytesToAddress(arg)).String()
-		case "kv":
-			if val, ok := e.base.KVGet(arg); ok {
-				v = "=" + hex.EncodeToString(val)
-			}
-		case "rcpt":
-			v, _ = receiptObs(e.base, arg)
-		}
+		fmt.Sscan(v, &n)
+		return n
 	}
-	e.baseMemo[key] = v
-	return v
+	n := e.base.Nonce(a)
+	e.baseMemo[key] = fmt.Sprint(n)
+	return n
 }
 
-// exec runs the sequence on a fresh copy of the template.  hdr, when non-nil,
-// gives for each block the tx list its header (DataHash, NumTxs ⇒ block hash) is
-// computed from — used to keep the block hash of a counterfactual identical to
-// the original's when receipts embed it.
-func (e *engine) exec(blocks [][][]byte, hdr [][][]byte) *seqRec {
+// exec runs the block sequence on a fresh copy of the template.  What is
+// observed after block i is named by watchSrc[i] (the ORIGINAL sequence's
+// block, also when a counterfactual is run), plus, after the last block,
+// everything named anywhere in watchSrc.  hdrSrc, when non-nil, gives for each
+// block the tx list its header (DataHash, NumTxs ⇒ block hash) is computed from
+// — used to keep the block hashes of a counterfactual identical to the
+// original's, because receipts of log-emitting txs embed the block hash.
+func (e *engine) exec(blocks [][][]byte, watchSrc [][][]byte, hdrSrc [][][]byte) *seqRec {
 	rec := &seqRec{}
 	// a panic while decoding / recovering the sender would happen on a goroutine
 	// spawned by the application and kill the process: pre-screen on this goroutine
@@ -251,7 +210,10 @@ func (e *engine) exec(blocks [][][]byte, hdr [][][]byte) *seqRec {
 			}
 		}
 	}
-	w := e.watchOf(blocks)
+	var all [][]byte
+	for _, b := range watchSrc {
+		all = append(all, b...)
+	}
 	dir := filepath.Join(e.work, fmt.Sprintf("r%d", atomic.AddInt64(&e.dirSeq, 1)))
 	if err := evmkit.CopyDir(e.tpl, dir); err != nil {
 		core.Fatal("copy template: %v", err)
@@ -269,8 +231,8 @@ func (e *engine) exec(blocks [][][]byte, hdr [][][]byte) *seqRec {
 		atomic.AddInt64(&e.blocks, 1)
 		atomic.AddInt64(&e.txs, int64(len(txs)))
 		blk := c.MakeBlock(txs)
-		if hdr != nil {
-			blk = evmkit.MakeBlockAt(c.Tip, hdr[bi])
+		if hdrSrc != nil {
+			blk = evmkit.MakeBlockAt(c.Tip, hdrSrc[bi])
 			blk.Data.Txs = c.MakeBlock(txs).Data.Txs
 		}
 		br := &blockRec{}
@@ -295,29 +257,18 @@ func (e *engine) exec(blocks [][][]byte, hdr [][][]byte) *seqRec {
 				core.Fatal("OnCommit returned an error (machinery, not a verdict): %v", err)
 			}
 			br.AppHash, br.ReceiptsHash = cr.AppHash, cr.ReceiptsHash
-			br.Obs, br.Logs = observe(c, w)
+			src := watchSrc[bi]
+			if bi == len(blocks)-1 {
+				src = all
+			}
+			br.Obs, br.Logs = observe(c, e.watchOf(src))
 		}); p {
 			rec.Panic, rec.PanicAt, rec.PanicPhase, rec.PanicSite, rec.PanicVal = true, bi, "commit", core.PanicSite(st), core.FirstLine(v)
 			return rec
 		}
 		rec.Blocks = append(rec.Blocks, br)
 	}
-	atomic.AddInt64(&e.progress, 1)
 	return rec
-}
-
-// execMemo runs a sequence once per distinct (tx lists, header source).
-func (e *engine) execMemo(blocks [][][]byte, hdr [][][]byte) *seqRec {
-	k := seqKey(blocks, hdr)
-	e.memoMu.Lock()
-	m := e.memo[k]
-	if m == nil {
-		m = &memoEntry{}
-		e.memo[k] = m
-	}
-	e.memoMu.Unlock()
-	m.once.Do(func() { m.rec = e.exec(blocks, hdr) })
-	return m.rec
 }
 
 // ---------------------------------------------------------------- the oracle
@@ -325,11 +276,8 @@ func (e *engine) execMemo(blocks [][][]byte, hdr [][][]byte) *seqRec {
 type finding struct {
 	sig    map[string]string
 	detail string
-	txIdx  [2]int // block, position of the transaction concerned (-1: none)
-}
-
-type verdicts struct {
-	valid [][]bool // per block, per position
+	block  int // block the finding is about
+	tx     int // position in that block, -1: the block as a whole
 }
 
 var reDigits = regexp.MustCompile(`[0-9a-fA-Fx]{6,}|[0-9]+`)
@@ -342,23 +290,28 @@ func errClass(s string) string {
 	return s
 }
 
-// check evaluates the property on the sequence and returns the findings plus a
-// short description of the outcome (for the class histogram).
-func (e *engine) check(blocks [][][]byte) (fs []finding, outcome string, rec *seqRec) {
-	rec = e.execMemo(blocks, nil)
-	var oc []string
+func short(b []byte) string {
+	if len(b) > 24 {
+		return fmt.Sprintf("%x…(%d bytes)", b[:24], len(b))
+	}
+	return fmt.Sprintf("%x", b)
+}
+
+// check evaluates the property on the sequence.  It returns the findings and,
+// per block, a short description of the outcome (for the class histogram).
+func (e *engine) check(blocks [][][]byte) (fs []finding, outcome []string, rec *seqRec) {
+	rec = e.exec(blocks, blocks, nil)
+	outcome = make([]string, len(blocks))
 	if rec.Panic {
 		b := blocks[rec.PanicAt]
-		cls := "block"
-		idx := [2]int{rec.PanicAt, -1}
+		cls, tx := "block", -1
 		if rec.PanicPhase == "decode" {
-			cls = e.info(b[rec.PanicTx]).class
-			idx[1] = rec.PanicTx
+			cls, tx = e.info(b[rec.PanicTx]).class, rec.PanicTx
 		} else if len(b) == 1 {
-			cls = e.info(b[0]).class
-			idx[1] = 0
+			cls, tx = e.info(b[0]).class, 0
 		} else {
-			// name the class if all non-neighbour txs share one
+			// name the class of the tx that differs from the rest, if identifiable: the
+			// grid tx of a block is the one not sent by a neighbour/tail sender
 			set := map[string]bool{}
 			for _, t := range b {
 				set[e.info(t).class] = true
@@ -368,8 +321,12 @@ func (e *engine) check(blocks [][][]byte) (fs []finding, outcome string, rec *se
 			}
 		}
 		fs = append(fs, finding{sig: map[string]string{"kind": "panic", "phase": rec.PanicPhase, "site": rec.PanicSite, "input": cls},
-			detail: fmt.Sprintf("panic in %s of block %d (%d txs): %s [at %s]", rec.PanicPhase, rec.PanicAt+1, len(b), rec.PanicVal, rec.PanicSite), txIdx: idx})
-		return fs, "panic@" + rec.PanicSite, rec
+			detail: fmt.Sprintf("panic in %s of a block of %d txs: %s [at %s]", rec.PanicPhase, len(b), rec.PanicVal, rec.PanicSite), block: rec.PanicAt, tx: tx})
+		for i := range outcome {
+			outcome[i] = "not-judged"
+		}
+		outcome[rec.PanicAt] = "panic@" + rec.PanicSite
+		return fs, outcome, rec
 	}
 	// (2) every tx of a block is reported exactly once; derive per-position verdicts
 	vd := make([][]bool, len(blocks))
@@ -379,8 +336,7 @@ func (e *engine) check(blocks [][][]byte) (fs []finding, outcome string, rec *se
 		if n, ok := model[a]; ok {
 			return n
 		}
-		var n uint64
-		fmt.Sscan(e.baseObs(obsKeyAcct("nonce", a)), &n)
+		n := e.baseNonce(a)
 		model[a] = n
 		return n
 	}
@@ -395,8 +351,54 @@ func (e *engine) check(blocks [][][]byte) (fs []finding, outcome string, rec *se
 		for _, t := range br.Valid {
 			cntV[string(t)]++
 		}
-		for _, t := range br.Invalid {
+		errOf := map[string]string{}
+		for i, t := range br.Invalid {
 			cntI[string(t)]++
+			errOf[string(t)] = br.Errs[i]
+		}
+		// entries reported with EMPTY bytes although the block has no (or fewer) zero-length txs:
+		// the report lost the transaction's bytes; they are matched to the unreported txs in
+		// order so that the remaining checks can go on, and reported as a finding of their own
+		lostV, lostI := 0, 0
+		if n := cntV[""] + cntI[""] - cntB[""]; n > 0 {
+			missing := 0
+			for k, nb := range cntB {
+				if k != "" && cntV[k]+cntI[k] < nb {
+					missing += nb - cntV[k] - cntI[k]
+				}
+			}
+			if missing == n {
+				lostI = cntI[""]
+				if lostI > n {
+					lostI = n
+				}
+				lostV = n - lostI
+				cntI[""] -= lostI
+				cntV[""] -= lostV
+				li, lv := lostI, lostV
+				var which []string
+				for _, t := range txs {
+					k := string(t)
+					if k == "" {
+						continue
+					}
+					for cntV[k]+cntI[k] < cntB[k] {
+						if li > 0 {
+							cntI[k]++
+							li--
+							errOf[k] = "(reported with empty bytes)"
+						} else if lv > 0 {
+							cntV[k]++
+							lv--
+						} else {
+							break
+						}
+						which = append(which, e.info(t).class)
+					}
+				}
+				fs = append(fs, finding{sig: map[string]string{"kind": "reported-with-empty-bytes", "rule": "report"},
+					detail: fmt.Sprintf("block %d (%d txs): %d InvalidTxs / %d ValidTxs entries carry empty bytes instead of the transaction (%s); schedule-dependent: the executing loop read the tx bytes before the decoding goroutine stored them", bi+1, len(txs), lostI, lostV, strings.Join(which, ",")), block: bi, tx: -1})
+			}
 		}
 		bad := len(br.Valid)+len(br.Invalid) != len(txs)
 		for k, n := range cntB {
@@ -404,34 +406,44 @@ func (e *engine) check(blocks [][][]byte) (fs []finding, outcome string, rec *se
 				bad = true
 			}
 		}
-		for k := range cntV {
-			if cntB[k] == 0 {
+		for k, n := range cntV {
+			if n > 0 && cntB[k] == 0 {
 				bad = true
 			}
 		}
-		for k := range cntI {
-			if cntB[k] == 0 {
+		for k, n := range cntI {
+			if n > 0 && cntB[k] == 0 {
 				bad = true
 			}
 		}
 		if bad {
-			cls := "block"
-			for _, t := range txs {
+			cls, tx := "block", -1
+			for i, t := range txs {
 				if cntV[string(t)]+cntI[string(t)] != cntB[string(t)] {
-					cls = e.info(t).class
+					cls, tx = e.info(t).class, i
 					break
 				}
 			}
-			fs = append(fs, finding{sig: map[string]string{"kind": "not-reported-exactly-once", "input": cls},
-				detail: fmt.Sprintf("block %d has %d txs; ValidTxs %d + InvalidTxs %d; some tx is not in exactly one list", bi+1, len(txs), len(br.Valid), len(br.Invalid)), txIdx: [2]int{bi, -1}})
-			return fs, "partition-broken", rec
+			var rv, ri []string
+			for _, t := range br.Valid {
+				rv = append(rv, short(t))
+			}
+			for _, t := range br.Invalid {
+				ri = append(ri, short(t))
+			}
+			if len(rv)+len(ri) > 8 {
+				rv, ri = []string{fmt.Sprint(len(rv), " entries")}, []string{fmt.Sprint(len(ri), " entries")}
+			}
+			fs = append(fs, finding{sig: map[string]string{"kind": "not-reported-exactly-once", "rule": "report", "input": cls},
+				detail: fmt.Sprintf("block %d has %d txs; ValidTxs %v, InvalidTxs %v: some tx is not in exactly one list", bi+1, len(txs), rv, ri), block: bi, tx: tx})
+			for i := bi; i < len(blocks); i++ {
+				outcome[i] = "not-judged"
+			}
+			outcome[bi] = "report-broken"
+			return fs, outcome, rec
 		}
 		vd[bi] = make([]bool, len(txs))
 		used := map[string]int{}
-		errOf := map[string]string{}
-		for i, t := range br.Invalid {
-			errOf[string(t)] = br.Errs[i]
-		}
 		var pat []string
 		for i, t := range txs {
 			k := string(t)
@@ -449,7 +461,7 @@ func (e *engine) check(blocks [][][]byte) (fs []finding, outcome string, rec *se
 			// (4) a valid tx is signed, carries the sender's current nonce, and bumps it by one
 			if !ti.signed {
 				fs = append(fs, finding{sig: map[string]string{"kind": "valid-without-sender", "input": ti.class},
-					detail: fmt.Sprintf("block %d tx %d is reported valid but has no recoverable sender (decodable=%v)", bi+1, i, ti.decodable), txIdx: [2]int{bi, i}})
+					detail: fmt.Sprintf("block %d tx %d is reported valid but has no recoverable sender (decodable=%v)", bi+1, i, ti.decodable), block: bi, tx: i})
 				continue
 			}
 			cur := nonceOf(ti.from)
@@ -459,7 +471,7 @@ func (e *engine) check(blocks [][][]byte) (fs []finding, outcome string, rec *se
 					kind = "applied-twice"
 				}
 				fs = append(fs, finding{sig: map[string]string{"kind": kind, "rule": "nonce", "input": ti.class},
-					detail: fmt.Sprintf("block %d tx %d (%s) reported valid with tx nonce %d while the sender's nonce is %d (copies of these bytes applied before: %d)", bi+1, i, ti.class, ti.nonce, cur, appliedBefore[k]), txIdx: [2]int{bi, i}})
+					detail: fmt.Sprintf("block %d tx %d (%s) reported valid with tx nonce %d while its sender's nonce is %d (copies of these bytes applied before: %d)", bi+1, i, ti.class, ti.nonce, cur, appliedBefore[k]), block: bi, tx: i})
 			}
 			model[ti.from] = cur + 1
 			appliedBefore[k]++
@@ -467,12 +479,31 @@ func (e *engine) check(blocks [][][]byte) (fs []finding, outcome string, rec *se
 				kvModel[string(ti.kvKey)] = "=" + hex.EncodeToString(ti.kvVal)
 			}
 		}
-		oc = append(oc, strings.Join(pat, ","))
-		// after the commit: nonces as modelled, receipts / KV records exist
-		for a, n := range model {
-			if got := br.Obs[obsKeyAcct("nonce", a)]; got != fmt.Sprint(n) {
+		if len(pat) > 6 {
+			cnt := map[string]int{}
+			for _, p := range pat {
+				cnt[p]++
+			}
+			var ks []string
+			for k, n := range cnt {
+				ks = append(ks, fmt.Sprintf("%s×%d", k, n))
+			}
+			sort.Strings(ks)
+			pat = ks
+		}
+		outcome[bi] = strings.Join(pat, ",")
+		// after the commit: nonces as modelled (for every modelled sender observed here), receipts / KV records exist
+		var addrs []common.Address
+		for a := range model {
+			addrs = append(addrs, a)
+		}
+		sort.Slice(addrs, func(i, j int) bool { return bytes.Compare(addrs[i][:], addrs[j][:]) < 0 })
+		for _, a := range addrs {
+			got, ok := br.Obs[obsKeyAcct("nonce", a)]
+			if ok && got != fmt.Sprint(model[a]) {
 				fs = append(fs, finding{sig: map[string]string{"kind": "nonce-not-raised-by-one-per-applied-tx", "rule": "nonce"},
-					detail: fmt.Sprintf("after block %d sender %x has nonce %s; %d expected (base nonce + number of its txs reported valid)", bi+1, a, got, n), txIdx: [2]int{bi, -1}})
+					detail: fmt.Sprintf("after block %d sender %x has nonce %s; %d expected (base nonce + number of its txs reported valid)", bi+1, a, got, model[a]), block: bi, tx: -1})
+				model[a], _ = parseU(got) // resynchronise: one finding per divergence
 			}
 		}
 		for i, t := range txs {
@@ -491,11 +522,10 @@ func (e *engine) check(blocks [][][]byte) (fs []finding, outcome string, rec *se
 			}
 			if !has {
 				fs = append(fs, finding{sig: map[string]string{"kind": "valid-without-receipt", "input": ti.class},
-					detail: fmt.Sprintf("block %d tx %d (%s) is reported valid but has neither a receipt nor a KV record after the commit", bi+1, i, ti.class), txIdx: [2]int{bi, i}})
+					detail: fmt.Sprintf("block %d tx %d (%s) is reported valid but has neither a receipt nor a KV record after the commit", bi+1, i, ti.class), block: bi, tx: i})
 			}
 		}
 	}
-	outcome = strings.Join(oc, " | ")
 	if !anyInvalid {
 		return fs, outcome, rec
 	}
@@ -525,28 +555,11 @@ func (e *engine) check(blocks [][][]byte) (fs []finding, outcome string, rec *se
 	if needHdr {
 		hdr = blocks
 	}
-	cr := e.execMemo(cf, hdr)
-	firstInvalid := func() (string, [2]int, string) {
-		for bi, txs := range blocks {
-			for i, t := range txs {
-				if !vd[bi][i] {
-					errs := ""
-					for j, it := range rec.Blocks[bi].Invalid {
-						if bytes.Equal(it, t) {
-							errs = rec.Blocks[bi].Errs[j]
-						}
-					}
-					return e.info(t).class, [2]int{bi, i}, errs
-				}
-			}
-		}
-		return "?", [2]int{-1, -1}, ""
-	}
-	cls, idx, cause := firstInvalid()
+	cr := e.exec(cf, blocks, hdr)
 	if cr.Panic {
-		// the counterfactual is a sub-sequence of valid txs: its panic is reported when it is checked itself
+		// the counterfactual consists of txs reported valid: the panic is its own problem
 		fs = append(fs, finding{sig: map[string]string{"kind": "panic", "phase": cr.PanicPhase, "site": cr.PanicSite, "input": "counterfactual"},
-			detail: fmt.Sprintf("the sequence without its invalid txs panics: %s", cr.PanicVal), txIdx: idx})
+			detail: fmt.Sprintf("the sequence without its invalid txs panics: %s", cr.PanicVal), block: cr.PanicAt, tx: -1})
 		return fs, outcome, rec
 	}
 	for bi := range blocks {
@@ -555,8 +568,12 @@ func (e *engine) check(blocks [][][]byte) (fs []finding, outcome string, rec *se
 		switch {
 		case !bytes.Equal(p.AppHash, q.AppHash):
 			diff = "apphash"
-		case !bytes.Equal(p.ReceiptsHash, q.ReceiptsHash) && !positional[bi]:
-			diff = "receiptshash"
+		case !bytes.Equal(p.ReceiptsHash, q.ReceiptsHash):
+			if positional[bi] {
+				atomic.AddInt64(&e.positionalSkips, 1)
+			} else {
+				diff = "receiptshash"
+			}
 		}
 		var keys []string
 		for k := range p.Obs {
@@ -565,23 +582,44 @@ func (e *engine) check(blocks [][][]byte) (fs []finding, outcome string, rec *se
 		sort.Strings(keys)
 		var od []string
 		for _, k := range keys {
-			want, ok := q.Obs[k]
-			if !ok {
-				want = e.baseObs(k) // named only by txs that were never applied
-			}
-			if p.Obs[k] != want {
+			if want := q.Obs[k]; p.Obs[k] != want {
 				od = append(od, fmt.Sprintf("%s: %q, without the invalid txs %q", k, p.Obs[k], want))
 				if diff == "" {
 					diff = "state:" + k[:strings.IndexAny(k+":", ":.")]
 				}
 			}
 		}
-		if diff != "" {
-			fs = append(fs, finding{sig: map[string]string{"kind": "invalid-tx-changed-state", "diff": diff, "input": cls},
-				detail: fmt.Sprintf("after block %d: app hash %x vs %x, receipts hash %x vs %x (with vs without the txs reported invalid; first invalid: block %d tx %d, %s, error %q); observable differences: %s",
-					bi+1, p.AppHash, q.AppHash, p.ReceiptsHash, q.ReceiptsHash, idx[0]+1, idx[1], cls, cause, strings.Join(od, "; ")), txIdx: idx})
-			break
+		if diff == "" {
+			continue
 		}
+		// attribute: the last block ≤ bi that contains an invalid tx
+		ab, at, cls, cause := bi, -1, "block", ""
+		for b := bi; b >= 0 && at < 0; b-- {
+			for i, t := range blocks[b] {
+				if !vd[b][i] {
+					ab, at, cls = b, i, e.info(t).class
+					for j, it := range rec.Blocks[b].Invalid {
+						if bytes.Equal(it, t) {
+							cause = rec.Blocks[b].Errs[j]
+						}
+					}
+					break
+				}
+			}
+		}
+		if len(od) > 6 {
+			od = append(od[:6], fmt.Sprintf("… %d more", len(od)-6))
+		}
+		fs = append(fs, finding{sig: map[string]string{"kind": "invalid-tx-changed-state", "diff": diff, "input": cls},
+			detail: fmt.Sprintf("after block %d: app hash %x vs %x, receipts hash %x vs %x (with vs without the txs reported invalid; nearest invalid tx: block %d tx %d, %s, error %q); observable differences: %s",
+				bi+1, p.AppHash, q.AppHash, p.ReceiptsHash, q.ReceiptsHash, ab+1, at, cls, cause, strings.Join(od, "; ")), block: ab, tx: at})
+		break
 	}
 	return fs, outcome, rec
+}
+
+func parseU(s string) (uint64, error) {
+	var n uint64
+	_, err := fmt.Sscan(s, &n)
+	return n, err
 }
